@@ -11,7 +11,7 @@ def HdrDoc (b : Bytes) : Hdr → Doc → Prop
   | .scalar .null _, .nil => True
   | .scalar (.bool x) _, .bool y => x = y
   | .scalar (.num bits) _, d => d.numBits? = some bits
-  | .scalar (.str off len) _, .str bs => bs = b.extract off (off + len)
+  | .scalar (.str off len) _, .str bs => bs = b.extract off (off + len) ∧ off + len ≤ b.size
   | .arr len _, .arr xs => xs.length = len
   | .map len _, .map ps => ps.length = len
   | _, _ => False
@@ -244,7 +244,7 @@ theorem dec_ok (b : Bytes) : ∀ f, DecOK b f := by
         rw [hm] at hdec hrd
         simp only [] at hdec
         obtain ⟨h1, rfl, rfl⟩ := strDoc_some hdec
-        exact scalar_case (.str (pos + 1) len) (pos + 1 + len) (by rw [hrd]; exact strHdr_some h1) rfl rfl (by omega) h1
+        exact scalar_case (.str (pos + 1) len) (pos + 1 + len) (by rw [hrd]; exact strHdr_some h1) ⟨rfl, h1⟩ rfl (by omega) h1
       | strN n =>
         rw [hm] at hdec hrd
         simp only [] at hdec
@@ -253,7 +253,7 @@ theorem dec_ok (b : Bytes) : ∀ f, DecOK b f := by
         | some l =>
           rw [hv] at hdec; simp only [] at hdec
           obtain ⟨h1, rfl, rfl⟩ := strDoc_some hdec
-          exact scalar_case (.str (pos + 1 + n) l) (pos + 1 + n + l) (by rw [hrd]; simp only [hdrByMarker, hv]; exact strHdr_some h1) rfl rfl (by omega) h1
+          exact scalar_case (.str (pos + 1 + n) l) (pos + 1 + n + l) (by rw [hrd]; simp only [hdrByMarker, hv]; exact strHdr_some h1) ⟨rfl, h1⟩ rfl (by omega) h1
       | arrFix len =>
         rw [hm] at hdec hrd
         simp only [] at hdec
